@@ -31,6 +31,7 @@ use crate::hll::estimator::HipEstimator;
 use crate::hll::get_slot;
 use crate::hll::get_value;
 use crate::hll::pack_coupon;
+use crate::hll::serialization::COMPACT_FLAG_MASK;
 use crate::hll::serialization::COUPON_SIZE_BYTES;
 use crate::hll::serialization::CUR_MODE_HLL;
 use crate::hll::serialization::HLL_PREAMBLE_SIZE;
@@ -307,6 +308,7 @@ impl Array4 {
         mut cursor: SketchSlice,
         cur_min: u8,
         lg_config_k: u8,
+        lg_aux_arr_ints: u8,
         compact: bool,
         ooo: bool,
     ) -> Result<Self, Error> {
@@ -328,28 +330,53 @@ impl Array4 {
             .map_err(insufficient_data("aux_count"))?;
 
         // Read packed 4-bit byte array
+        // The nibble array is stored in full in both the compact and the updatable form
         let mut data = vec![0u8; num_bytes];
-        if !compact {
-            cursor
-                .read_exact(&mut data)
-                .map_err(insufficient_data("data"))?;
-        } else {
-            cursor.advance(num_bytes as u64);
-        }
+        cursor
+            .read_exact(&mut data)
+            .map_err(insufficient_data("data"))?;
 
-        // Read aux map if present
+        // Read aux map if present. The compact form stores the aux_count exception pairs
+        // back to back; the updatable form stores the whole aux hash table of
+        // 1 << lg_aux_arr_ints cells (lg_aux_arr_ints in the lg_arr byte, 0 = default size),
+        // where empty cells are zero.
         let mut aux_map = None;
         if aux_count > 0 {
+            let num_cells = if compact {
+                aux_count as usize
+            } else {
+                let lg_aux_arr_ints = if lg_aux_arr_ints == 0 {
+                    super::aux_map::lg_aux_arr_ints(lg_config_k)
+                } else {
+                    lg_aux_arr_ints
+                };
+                if lg_aux_arr_ints > 26 {
+                    return Err(Error::deserial(format!(
+                        "lg_aux_arr_ints must be at most 26, got {lg_aux_arr_ints}"
+                    )));
+                }
+                1usize << lg_aux_arr_ints
+            };
             let mut aux = AuxMap::new(lg_config_k);
-            for i in 0..aux_count {
+            let mut num_read = 0u32;
+            for i in 0..num_cells {
                 let coupon = cursor.read_u32_le().map_err(|_| {
                     Error::insufficient_data(format!(
                         "expected {aux_count} aux coupons, failed at index {i}",
                     ))
                 })?;
+                if !compact && coupon == 0 {
+                    continue; // empty cell of the updatable table
+                }
                 let slot = get_slot(coupon) & ((1 << lg_config_k) - 1);
                 let value = get_value(coupon);
                 aux.insert(slot, value);
+                num_read += 1;
+            }
+            if num_read != aux_count {
+                return Err(Error::deserial(format!(
+                    "expected {aux_count} aux entries, found {num_read}"
+                )));
             }
             aux_map = Some(aux);
         }
@@ -396,7 +423,9 @@ impl Array4 {
         bytes.write_u8(0); // unused for HLL mode
 
         // Write flags
-        let mut flags = 0u8;
+        // This is the compact form (what toCompactByteArray / serialize_compact emit): the
+        // exceptions follow the nibble array as a plain list of pairs
+        let mut flags = COMPACT_FLAG_MASK;
         if self.estimator.is_out_of_order() {
             flags |= OUT_OF_ORDER_FLAG_MASK;
         }
